@@ -8,6 +8,7 @@
     * semantics/procedure.py:55-221  Procedure.exec / __exec_impl / __result / __action / __run_action / __emit / __make_event / __stack_pop
     * implements/syntax/lark/parser.py:73-102  SyntaxParserOfLark.__load_entry (in-memory branch, on-disk branch)
     * bin/transpile.py:407-431  Interactive.run
+    * module/modules.py  Modules.load (normalisation + rollback of 8079937; a plain call sequence on the pinned tree)
     * view/error_render.py:56-144  ErrorRender.__build_quotation / __build_message / Quotation
 
   Conventions: Python `str` = `Tranp.Str`; an exception is `Exc` (class + what `args[0]` is); a computation that may raise is
@@ -106,12 +107,15 @@ def runAction (act : Action) (x : Exc) : Exc :=
     if x.arg0 = .other then
       (if x.cls.ctor1 then ⟨x.cls, .node⟩ else ctorTypeError)
     else x
+  | .reraise => x
 
 /-- the exception that leaves a `try` statement with the given `except` clauses when its body raised `x`
     (first matching clause wins; an exception raised inside a clause is not re-examined by the later clauses) -/
 def propagate : List Handler → Exc → Exc
   | [], x => x
   | h :: hs, x => if x.cls.isA h.catches then runAction h.action x else propagate hs x
+
+def catchesAnyCls (cs : List Atom) (c : Cls) : Bool := cs.any (fun t => c.isA t)
 
 def tryWith {α : Type} (hs : List Handler) : Except Exc α → Except Exc α
   | .ok a => .ok a
@@ -178,6 +182,36 @@ def loadEntry (memHandlers : List Handler) (onDisk cached : Bool) (parse : Excep
   if !onDisk then tryWith memHandlers parse                           -- :88-89
   else if cached then .ok ()                                          -- :101-102 (decorator returns the stored entry)
   else tryWith parserDiskHandlers parse                               -- :91-95
+
+/-! ## Modules.load (module/modules.py) -/
+
+/-- `registered`: the module is in the registry on entry; `registeredAfterLibs`: … after the library modules were loaded (they may
+    load it themselves). Stages: `libs` = `__load_libraries`, `load` = `loader.load`, `body` = `__load_dependencies` + `loader.preprocess`,
+    `unload` = the rollback `self.unload(module_path)`. `handlers`/`rollback`: the generated `modulesLoadHandlers` /
+    `modulesLoadRollbackCatch` (both empty on the pinned tree, where `load` has no try statement and no rollback). -/
+def modulesLoadBody (rollback : List Atom) (recheck registered registeredAfterLibs : Bool)
+    (libs load body unload : Except Exc Unit) : Except Exc Unit :=
+  match (if registered then .ok () else libs) with
+  | .error x => .error x
+  | .ok _ =>
+    if registered || (recheck && registeredAfterLibs) then .ok () else   -- the re-check after the libraries (f3f812f)
+    match load with
+    | .error x => .error x
+    | .ok _ =>
+      match body with
+      | .ok _ => .ok ()
+      | .error x =>
+        if catchesAnyCls rollback x.cls then
+          (match unload with
+            | .ok _ => .error x          -- `self.unload(module_path)` ; bare `raise`
+            | .error y => .error y)
+        else .error x
+
+def modulesLoadWith (handlers : List Handler) (rollback : List Atom) (recheck registered registeredAfterLibs : Bool)
+    (libs load body unload : Except Exc Unit) : Except Exc Unit :=
+  tryWith handlers (modulesLoadBody rollback recheck registered registeredAfterLibs libs load body unload)
+
+def modulesLoad := modulesLoadWith modulesLoadHandlers modulesLoadRollbackCatch modulesLoadRechecks
 
 /-! ## Interactive.run (bin/transpile.py:407-431) -/
 
